@@ -640,12 +640,12 @@ Section Generic.
       fold (out_of [] s) in Ho. subst dst.
       destruct Hfr as (F1 & F2 & F3 & F4 & F5 & F6).
       assert (Hl : len64 (out_of [] s) = len64 s) by (unfold len64; rewrite out_of_length; reflexivity).
-      assert (Hpc : poly_core _ ([] ++ out_of [] s)).
-      { apply (absorb_aligned (set_rct ctxB 0) (out_of [] s) []); psimpl; try congruence.
-        - apply mult16_0.
-        - rewrite F1, A3. reflexivity.
-        - rewrite out_of_length; assumption. }
-      rewrite Hl in Hpc. fold rem l16 in Hpc. cbn [app] in Hpc.
+      assert (B1 : c_poly_key (set_rct ctxB 0) = pk) by (psimpl; congruence).
+      assert (B2 : length (c_scratch (set_rct ctxB 0)) = 16%nat) by (psimpl; congruence).
+      assert (B3 : c_hash (set_rct ctxB 0) = paead_update pk h0 []) by (psimpl; rewrite F1, A3; reflexivity).
+      assert (B4 : N.of_nat (length (out_of [] s)) < 2 ^ 64) by (rewrite out_of_length; assumption).
+      pose proof (absorb_aligned (set_rct ctxB 0) (out_of [] s) [] B1 B2 eq_refl mult16_0 B3 B4) as Hpc.
+      cbv zeta in Hpc. rewrite Hl in Hpc. fold rem l16 in Hpc. cbn [app] in Hpc.
       split; [|reflexivity].
       split; [| split; [| split]].
       + apply (ks_rel_same ctxB); [psimpl; repeat split|]. rewrite <- (app_nil_l s). rewrite st_after_app. exact Hks2.
@@ -660,11 +660,11 @@ Section Generic.
       { apply (ks_rel_same ctxA); [|assumption]. subst ctxH. unfold same_ks, ChachaStream.paead_update_ctx. psimpl. repeat split. }
       pose proof (enc_dec_ks_sim ctxH (st_after []) s HksH) as [Ho Hks2].
       pose proof (enc_dec_ks_frame ctxH s) as Hfr.
-      assert (Hpc : poly_core _ ([] ++ s)).
-      { apply (absorb_aligned (set_rct ctxA 0) s []); psimpl; try congruence.
-        - apply mult16_0.
-        - rewrite A3. reflexivity. }
-      fold rem l16 in Hpc. cbn [app] in Hpc.
+      assert (B1 : c_poly_key (set_rct ctxA 0) = pk) by (psimpl; congruence).
+      assert (B2 : length (c_scratch (set_rct ctxA 0)) = 16%nat) by (psimpl; congruence).
+      assert (B3 : c_hash (set_rct ctxA 0) = paead_update pk h0 []) by (psimpl; rewrite A3; reflexivity).
+      pose proof (absorb_aligned (set_rct ctxA 0) s [] B1 B2 eq_refl mult16_0 B3 Hlen) as Hpc.
+      cbv zeta in Hpc. fold rem l16 in Hpc. cbn [app] in Hpc.
       destruct (enc_dec_ks key ctxH s) as [ctxB dst]. cbn [fst snd] in *.
       split; [|exact Ho].
       destruct Hfr as (F1 & F2 & F3 & F4 & F5 & F6).
